@@ -27,7 +27,7 @@ CHECKS = {
  "C08": dict(level="exploration", engine="E3 grid",
    technique="bounded-exhaustive enumeration of rule sets x names x accesses against an independent evaluator of the documented semantics; exhaustive resolve histories through shared caches vs. a cold resolver",
    text="For every named resource kind (agent, event, key, node, query, service, session) every assignment of {none, deny, read, (list), write} to a grid of exact and prefix rule slots over the names '', a, ab is parsed and compiled by the real acl package as one policy; two policies over three slots in both orders; three policies over two slots; scalar rules (acl, keyring, operator, mesh, peering incl. the operator fallback) exhaustively. Every name in {'', a, ab, abc, b} x every access level x both default policies is decided by the real authorizer chain and by a 60-line reference (exact wins, else longest prefix, deny>write>list>read across policies, else default). Cache part: every sequence of compilations of ordered policy subsets through one real ACLCaches, after which every subset must decide exactly as a cold compilation.",
-   note="Aggregate methods (ServiceReadAll, KeyWritePrefix, ...) are part of the cache/ordering comparison but have no independent reference. Resolver-level role and identity caching is checked by C09's binary (package consul).",
+   note="Aggregate methods (ServiceReadAll, KeyWritePrefix, ...) are part of the cache/ordering comparison but have no independent reference. The resolver-level part runs every resolve history (depth 3 quick, 4 thorough) of five tokens sharing roles, identities and policies through one real ACLResolver (server-local and RPC+cache backends) and compares every token's decision vector with a cold resolver.",
    design="§3 C08"),
  "C13": dict(level="exploration", engine="E3 grid",
    technique="bounded-exhaustive enumeration of intention sets x write orders x (source, destination, default) queries on the real state store against a reference precedence evaluator",
@@ -49,6 +49,11 @@ CHECKS = {
    text="For each payload size and metadata variant a fresh archive is written by the real writer; then every byte position is flipped (5 patterns quick, all 255 values thorough), the archive is cut at every length, every member is removed, reordered, duplicated, shadowed by an injected copy, and an extra member of every tar entry type is injected at every position; SHA256SUMS lines are dropped, duplicated and extended. The same member edits, every gzip byte position and truncation, trailing garbage and concatenated gzip members go through the exported snapshot.Read. Every outcome must be reject, or accept with exactly the original state bytes and metadata; damage inside state.bin or meta.json content, a missing member or checksum line, a cut before the last member is complete, or any extra member must be rejected; no file handle may be returned together with an error.",
    note="Position classes are computed from the tar layout of the pristine archive. Evidence lists (position class, outcome) cell counts.",
    design="§3 C20"),
+ "C09": dict(level="exploration", engine="E3 grid",
+   technique="bounded-exhaustive enumeration of response arrangements x authorizers against per-type read rules (out-of-place filter oracle, flag <=> removed); exhaustive expiry x cache-state x clock grid on the real resolver under a shifted clock",
+   text="Filtering: for 27 generated response shapes of the Filter type switch (health checks, service nodes, check-service nodes and their wrappers, topology, per-datacenter map, coordinates, nodes, sessions, node services / node service list / node dump incl. imported dump and checks, services, service list, per-peer exported list, gateway services, intentions, service dump, nodes-with-gateways) every arrangement with repetition (length <= 3 quick, 4 thorough) of readable / node-denied / service-denied / both-denied / node-level elements, incl. instances whose ID differs from their name, is filtered in place by the real filter for four real policy authorizers and compared with an out-of-place filter by the type's read rule; the filtered flag must be set exactly when something was removed. Expiry: token expiry {none, t+10s} x resolution path {RPC + identity cache, server-local} x down policy x RPC health x every non-decreasing sequence of <= 3 resolve instants from {0, 5s, 15s, 40s}: a token past its expiry must never grant its privileges, a valid one must.",
+   note="The clock of package consul and agent/structs is shifted through the time-import rewrite. ACL-object filters (tokens, policies, roles, binding rules, auth methods), prepared-query redaction and IntentionQueryMatch are listed in evidence as not generated.",
+   design="§3 C09"),
  "C10": dict(level="exploration", engine="E3 grid",
    technique="exhaustive enumeration of command family x pre-state x supplied-index grid on the real FSM; matched/applied/reported oracle on full state dumps",
    text="Every conditional command type (KV cas/delete-cas direct and in transactions, check-index guards, catalog node/service/check cas and delete-cas incl. writers carrying a different node ID, config entry upsert-cas/with-status-cas/delete-cas, CA set-config, CA set-roots, CA set-roots-and-config with the cross product of both indexes, autopilot CAS, ACL token CAS, feature-gate update with both expected indexes) is applied to every pre-state (absent, present, modified, re-created, deleted) with every supplied index class (0, current, previous, future). Matched is computed from the pre-state; applied from a byte comparison of the full 36-table dump; required: matched<=>applied<=>reported, and composites all-or-nothing.",
